@@ -1345,7 +1345,12 @@ func superviseShard(prop string, s evid.ShardInfo, w *evid.Run, p *plan, assign 
 	// run. On a tree without such inputs nothing is cut.
 	budgets := []int{24, 48, 12, 12, 12, 8}
 	if p.thorough {
-		budgets = []int{96, 192, 48, 48, 48, 32}
+		budgets = []int{48, 96, 24, 24, 24, 16}
+	}
+	if x, _ := strconv.Atoi(os.Getenv("VERIF_CODEC_BUDGET_X")); x > 1 { // exploration aid: larger budgets
+		for i := range budgets {
+			budgets[i] *= x
+		}
 	}
 	classNames := []string{"default seeds of built-ins", "exhaustive/grid/tower units", "default seeds of generated types", "other seeds of built-ins", "other seeds of generated types", "pairs"}
 	fails, curClass := 0, -1
